@@ -237,7 +237,7 @@ class Summariser:
         return None
 
     def summarise(self, fn, depth=0):
-        key = (fn.key, tuple(sorted(self.tysubst.items())))
+        key = (id(fn), tuple(sorted(self.tysubst.items())))
         if key in self._memo:
             return self._memo[key]
         outs, sym = self.paths(fn)
@@ -402,10 +402,11 @@ def okness(fb, r, depth=0):
         info = CALLINFO[r[4]] if r[4] < len(CALLINFO) else {}
         if info.get("indirect"):
             return None
-        k = (info.get("res") or info).get("key")
+        k0 = (info.get("res") or info).get("key")
+        k = (id(fb), k0)
         if k in _OKNESS_CACHE:
             return _OKNESS_CACHE[k]
-        f = fb.fns.get(k)
+        f = fb.fns.get(k0)
         res = None
         if f is not None and len(f.blocks) <= 12:
             ret = Sym(f, fb).local(0)
